@@ -1,5 +1,5 @@
 """C08 - backpressure: the per-step comparison and the goroutine identity of every callback (DESIGN 6/C08): Ops.tla is the definition; TLC enumerates, the real code is replayed."""
-import vlib, parts_pipeline as pp, common
+import vlib, parts_pipeline as pp, parts_detach, common
 
 PID = 'C08'
 
@@ -8,7 +8,10 @@ def main(argv):
     rep = vlib.Report(PID, 'model_checking', argv)
     vlib.build_harness()
     pp.run(rep, PID, common.pipeline_cfgs(rep, 'values'))
-    rep.cov['rule'] = common.PIPE_RULE
+    # hand-off operators: the only places where values wait in a queue
+    parts_detach.model_part(rep)
+    parts_detach.trace_part(rep, PID, 600 if rep.tier == 'thorough' else 300, [rep.seed * 100 + i for i in range(6 if rep.tier == 'thorough' else 1)])
+    rep.cov['rule'] = common.PIPE_RULE + '; hand-off: seeded scenarios of ObserveOn / SubscribeOn / ToChannel with every capacity 1..4 (0..3), lengths 0..12, fast / slow / stalling / stopping consumers, completion / error / unsubscription, validated against DetachTrace.tla (FIFO, no loss, terminal last, run-ahead <= capacity + 2, no panic escapes)'
     rep.cov['exhaustive'] = True
     rep.assumptions += ['the reference semantics Ops.tla follows the documentation, and the pinned commit where the documentation is silent',
                         'bounded: scripts <= 3-4 notifications over 3 values; chains <= 2 operators']
@@ -17,4 +20,6 @@ def main(argv):
 
 def replay(path):
     vlib.build_harness()
+    if path.endswith('.ndjson'):
+        return parts_detach.replay_trace(PID, path)
     return pp.replay_case(PID, path)
